@@ -15,20 +15,6 @@ theorem liveOf_table (l : Lay) (ok : l.Ok) : liveOf l.table = liveEntries (table
     intro e he; simp [freeEntries_typ _ _ e he]
   rw [h1, h2, List.append_nil]
 
-theorem liveEntries_range (s : Nat) (bs : List LBlock) :
-    ∀ e ∈ liveEntries s bs, (s : Int) ≤ e.off ∧ 0 ≤ e.size ∧ e.off + e.size ≤ ((s + (dataOf bs).length : Nat) : Int) := by
-  induction bs generalizing s with
-  | nil => simp [liveEntries]
-  | cons b bs ih =>
-    intro e he
-    have hlen : (dataOf (b :: bs)).length = b.payload.length + (dataOf bs).length := by
-      simp [dataOf, List.flatMap_cons]
-    simp only [liveEntries, List.mem_cons] at he
-    rcases he with rfl | he
-    · simp only [liveEntry, hlen]; omega
-    · have := ih (s + b.payload.length) e he
-      rw [hlen]; omega
-
 theorem liveEntries_pairwise (s : Nat) (bs : List LBlock) : (liveEntries s bs).Pairwise Disjoint2 := by
   induction bs generalizing s with
   | nil => simp [liveEntries]
